@@ -322,6 +322,16 @@ fn mtenet<F: Scalar>(pr: &Params) {
         }
         assume(s.s_eq(F::lit(0.0)));
     }
+    // `orth` = 1 (p = 2): the two feature columns are orthogonal, so one sweep of block coordinate descent is
+    // exact for every row and the returned point must satisfy the group-lasso KKT conditions in EVERY feature row
+    let orth = pr.u("orth", 0) == 1 && pfeat == 2;
+    if orth {
+        let mut d = F::lit(0.0);
+        for i in 0..n {
+            d = d + x[(i, 0)] * x[(i, 1)];
+        }
+        assume(d.s_eq(F::lit(0.0)));
+    }
     let all: Vec<F> = x.iter().cloned().chain(y.iter().cloned()).collect();
     diversify(&all, pr.u("div", 0));
     let ds = Dataset::new(x.clone(), y.clone());
@@ -358,6 +368,34 @@ fn mtenet<F: Scalar>(pr: &Params) {
     if pfeat > 1 {
         if ob & OB_GAP_SIGN != 0 {
             check("mtenet.duality gap is non-negative", F::lit(-TOL).s_le(model.duality_gap()));
+        }
+        if orth && !icpt && ob & OB_KKT_W != 0 {
+            let zero = F::lit(0.0);
+            let t1 = F::lit(n as f64 * pen * l1);
+            let t2 = F::lit(n as f64 * pen * (1.0 - l1));
+            // residual per task at the returned point
+            let r: Vec<Vec<F>> = (0..tasks)
+                .map(|t| (0..n).map(|i| y[(i, t)] - x[(i, 0)] * hp[(0, t)] - x[(i, 1)] * hp[(1, t)]).collect())
+                .collect();
+            for j in 0..pfeat {
+                let wj = [hp[(j, 0)], hp[(j, 1)]];
+                let s: Vec<F> = (0..tasks)
+                    .map(|t| {
+                        let mut g = zero;
+                        for i in 0..n {
+                            g = g + x[(i, j)] * r[t][i];
+                        }
+                        g - t2 * wj[t]
+                    })
+                    .collect();
+                let s_n2 = s[0] * s[0] + s[1] * s[1];
+                let w_is0 = wj[0].s_eq(zero).and(wj[1].s_eq(zero));
+                let cross = s[0] * wj[1] - s[1] * wj[0];
+                let dot = s[0] * wj[0] + s[1] * wj[1];
+                let nonzero = SymB::all(&[near(cross, zero, TOL), F::lit(-TOL).s_le(dot), near(s_n2, t1 * t1, TOL2)]);
+                let atzero = s_n2.s_le(t1 * t1 + F::lit(TOL2));
+                check("mtenet.KKT in every row of W on an orthogonal design", w_is0.implies(atzero).and(w_is0.not().implies(nonzero)));
+            }
         }
         observe(model.duality_gap());
         return;
@@ -436,5 +474,5 @@ pub fn register(v: &mut Vec<HarnessDef>) {
     harness!(v, "c11.mtenet", "C11", mtenet,
         "MultiTaskElasticNet::fit (block coordinate descent), 2 tasks, 1 feature: finite output, group-lasso KKT, exact zero row, intercepts, duality gap >= 0",
         ["linfa_elasticnet::MultiTaskElasticNetValidParams::fit", "linfa_elasticnet::algorithm::{compute_intercept, block_coordinate_descent, block_soft_thresholding, duality_gap_mtl, variance_params}", "linfa_elasticnet::MultiTaskElasticNet::{hyperplane, intercept, duality_gap}"],
-        ["features and targets are integers in [-B,B]", "centred=1: the feature column sums to zero", "outputs are rounded terms (sqrt, /): tolerances 2^-20 (2^-16 on squared norms)"]);
+        ["features and targets are integers in [-B,B]", "centred=1: the feature column sums to zero", "p=2, orth=1: the two feature columns are orthogonal (sum_i x_i0*x_i1 = 0); KKT is then demanded in every row of W", "outputs are rounded terms (sqrt, /): tolerances 2^-20 (2^-16 on squared norms)"]);
 }
